@@ -445,7 +445,7 @@ pub fn main(args: &[String]) -> i32 {
                 let hostq: Vec<i64> = p["hostq"].as_array().map(|a| a.iter().map(|x| limbs_to_u64(x) as i64).collect()).unwrap_or_default();
                 let exp_status = run["out"]["status"].as_str().unwrap_or("?").to_string();
                 let hz: Vec<String> = run["out"]["hz"].as_array().map(|a| a.iter().filter_map(|x| x.as_str().map(String::from)).collect()).unwrap_or_default();
-                let hazard_known: Vec<String> = hz.iter().filter(|h| *h == "D1" || *h == "D2" || *h == "D4" || *h == "D5").cloned().collect();
+                let hazard_known: Vec<String> = hz.iter().filter(|h| *h == "D1" || *h == "D2" || *h == "D4" || *h == "D5" || *h == "D6").cloned().collect();
                 let mut fail = |what: String, exp: J, got: J, known: Vec<String>, err: &str| {
                     failures.push(json!({"config": cname, "run": ri, "step": ri, "args": run["args"], "what": what, "exp": exp, "got": got,
                                          "exp_trapk": run["out"]["trapk"], "err": err, "known": known, "hz": hz}));
@@ -514,7 +514,7 @@ pub fn main(args: &[String]) -> i32 {
                 if let Some((what, exp, got)) = compare_run(&obs, &run["out"], *metering) {
                     // Attribute to a recorded finding only through its root-cause signature (DESIGN 3.6):
                     //  D3: the engine's outcome equals the as-built outcome in which the deviation fired;
-                    //  D1/D2/D4/D5: the hazard predicate held on the executed reference path.
+                    //  D1/D2/D4/D5/D6: the hazard predicate held on the executed reference path.
                     let mut known: Vec<String> = Vec::new();
                     for ab in run["out"]["abs"].as_array().cloned().unwrap_or_default() {
                         if compare_run(&obs, &ab, *metering).is_none() {
